@@ -334,6 +334,11 @@ def check_sized_families(ctx, cirq, n):
             t = float(gen.rand_exponent(rng))
             add('phase_gradient', [k], [t], cirq.PhaseGradientGate(num_qubits=k, exponent=t))
             add('phase_gradient', [k], [t * 0.5], cirq.PhaseGradientGate(num_qubits=k, exponent=t) ** 0.5)
+        # the period of the gradient is 2**k, not 2: every integer exponent over two periods, and as a power of the unit gate
+        for t in range(-(2 ** k), 2 ** (k + 1) + 2):
+            add('phase_gradient', [k], [float(t)], cirq.PhaseGradientGate(num_qubits=k, exponent=t))
+            if t % 3 == 0:
+                add('phase_gradient', [k], [float(t)], cirq.PhaseGradientGate(num_qubits=k, exponent=1) ** t)
     for k in (1, 2, 3, 4):
         for _ in range(4):
             perm = list(range(k))
